@@ -99,4 +99,5 @@ FamNestQuick    == {Nest3, NestHeld2s}
 FamNestThorough == {Nest3, Nest2x4, NestHeld2}
 FamNestGate     == {Nest2}
 FamNestGateThorough == {Nest3, NestHeld2s}
+FamNestHeld     == {NestHeld2s}
 =============================================================================
